@@ -22,7 +22,8 @@ LEVEL = 'exploration'
 TECHNIQUE = 'bounded exhaustive enumeration of spans x labels x slice triples x access-path pairs against list-index reference'
 RULE = ('17 span types (unsorted NumPy labels, labels that are variable/alias/attribute names) x lengths 1..4 (quick) / 1..6 (thorough) x {VectorContainer, parser-built model, aliased model} x every label get / set (set on every variable of the object, status and iterations included), every (start,stop,step) with '
         'start/stop in labels+None+absent and step in {None,1,2,3} get/set, every (write path, position, read path) triple. '
-        'non-trivial = access that addresses at least one cell or must be rejected with KeyError')
+        'non-trivial = access that addresses at least one cell or must be rejected with KeyError'
+        " After each label write: the same write to a variable filled from a sibling's array (attribute, replace_values, add_variable) or from an array shared with a second variable: one cell of one variable changes, the caller's array does not.")
 ASSUMPTIONS = [
     'pandas partial-string labels, duplicate labels, labels equal under == and None as a slice bound are outside the property',
     'positions come from list(span).index(label)',
@@ -178,6 +179,53 @@ def run_label_case(case):
                                 'label write to %r changed the wrong cells' % var))
             if out:
                 break
+        # the same write after the series were filled from arrays (one variable assigned from another, two variables added from one array):
+        # a label write still changes one cell of one variable, and nothing the caller holds
+        if not out and i != 'absent':
+            for prep in ('assigned-from-sibling', 'replaced-from-sibling', 'added-from-one-array', 'added-from-sibling', 'after-refused-add'):
+                c, labels = make(kind, n, obj)
+                held = np.array([0.25 * (k + 1) for k in range(n)])
+                try:
+                    if prep == 'assigned-from-sibling':
+                        c.add_variable('N1', 0.0)
+                        c.N1 = c.Y
+                        others = ['Y']
+                    elif prep == 'replaced-from-sibling':
+                        c.add_variable('N1', 0.0)
+                        c.replace_values(N1=c['Y'])
+                        others = ['Y']
+                    elif prep == 'after-refused-add':
+                        # a misfitting add_variable is refused and leaves nothing behind: the corrected call works, labels address its cells
+                        try:
+                            c.add_variable('N1', [1.0] * (n + 1))
+                        except Exception:
+                            pass
+                        c.add_variable('N1', 0.0)
+                        others = ['Y']
+                    elif prep == 'added-from-one-array':
+                        c.add_variable('N1', held)
+                        c.add_variable('N2', held)
+                        others = ['N2']
+                    else:
+                        c.add_variable('N1', c['Y'])
+                        others = ['Y']
+                except Exception as e:
+                    out.append(('label:set:prepared:%s:%s' % (prep, type(e).__name__), 'accepted', repr(e)[:100], 'filling a series from an array is refused'))
+                    break
+                before = snap(c)
+                held_before = held.copy()
+                try:
+                    c['N1', label] = -7.5
+                    exc = None
+                except Exception as e:
+                    exc = e
+                after = snap(c)
+                want = before['N1'].copy()
+                want[i] = -7.5
+                if exc is not None or any(not same(after[k], want if k == 'N1' else before[k]) for k in before) or not same(held, held_before):
+                    out.append(('label:set:prepared:%s' % prep, want.tolist(), [after['N1'].tolist(), [after[o].tolist() for o in others], held.tolist()] if exc is None else repr(exc)[:80],
+                                'a label write to a variable filled from an array also changed %s or the array the caller holds' % others))
+                    break
     return out
 
 
